@@ -256,8 +256,16 @@ inline std::string first_diff(const std::string& a, const std::string& b) {
          ": expected ..." + a.substr(from, 90) + "... got ..." + b.substr(from, 90) + "...";
 }
 
+// a family adapter may declare `static const bool NO_COPY_ASSIGN = true;` when the type's copy assignment
+// cannot be instantiated at all (then every copy-assignment form is left out of the program)
+template<typename F, typename = void> struct can_copy_assign: std::true_type {};
+template<typename F> struct can_copy_assign<F, std::void_t<decltype(F::NO_COPY_ASSIGN)>>: std::false_type {};
+
 // ------------------------------------------------------------------ the lifecycle program
 template<typename F> struct Program {
+  static constexpr bool CA = can_copy_assign<F>::value;
+  template<typename O> static void copy_assign(O& dst, const O& src) { if constexpr (CA) dst = src; }
+  template<typename O> static void chain_assign(O& a, O& b, const O& c) { if constexpr (CA) a = b = c; }
   typedef typename F::Obj Obj;
   typedef typename F::Cfg Cfg;
   typedef Slot<Obj> S;
@@ -363,10 +371,11 @@ template<typename F> struct Program {
     if (c < 6) { cnt("moved_from_left_in_pool"); return; }          // later ops may assign to it or destroy it
     S* z = pick_valid(x);
     if (!z) { destroy(x, "destroy-moved-from"); return; }
+    if (c < 8 && !CA) { destroy(x, "destroy-moved-from"); return; }
     if (c < 8) {
       tr("copy-assign-to-moved-from#" + std::to_string(find_idx(x)) + "=#" + std::to_string(find_idx(z)));
-      if (!probe("moved-from|copy-assign-to-moved-from", [&] { x->o() = z->co(); (void)F::readout(x->co(), cfg); })) { destroy(x, "destroy-moved-from"); return; }
-      { LibScope ls("copy-assign-to-moved-from"); x->o() = z->co(); }
+      if (!probe("moved-from|copy-assign-to-moved-from", [&] { copy_assign(x->o(), z->co()); (void)F::readout(x->co(), cfg); })) { destroy(x, "destroy-moved-from"); return; }
+      { LibScope ls("copy-assign-to-moved-from"); copy_assign(x->o(), z->co()); }
       x->valid = true;
       expect_eq(*x, z->ro, "moved-from|copy-assign-to-moved-from-differs", "object revived by copy assignment differs from the source");
       cnt("copy_assign_to_moved_from");
@@ -398,8 +407,8 @@ template<typename F> struct Program {
   void op_copy_assign(S* x, S* y) {   // x = y
     tr("copy-assign#" + std::to_string(find_idx(x)) + "=#" + std::to_string(find_idx(y)));
     const bool was_valid = x->valid;
-    if (!was_valid && !probe("moved-from|copy-assign-to-moved-from", [&] { x->o() = y->co(); (void)F::readout(x->co(), cfg); })) { destroy(x, "destroy-moved-from"); return; }
-    { LibScope ls(was_valid ? "copy-assign" : "copy-assign-to-moved-from"); x->o() = y->co(); }
+    if (!was_valid && !probe("moved-from|copy-assign-to-moved-from", [&] { copy_assign(x->o(), y->co()); (void)F::readout(x->co(), cfg); })) { destroy(x, "destroy-moved-from"); return; }
+    { LibScope ls(was_valid ? "copy-assign" : "copy-assign-to-moved-from"); copy_assign(x->o(), y->co()); }
     x->valid = true;
     expect_eq(*x, y->ro, "copy-assign|target-differs-from-source", "after x = y the read-out of x differs from y's");
     cnt(was_valid ? "copy_assign" : "copy_assign_to_moved_from");
@@ -433,16 +442,16 @@ template<typename F> struct Program {
     cnt("self_assign_attempt");
     Obj& ref = x->o();
     const Obj& same = *static_cast<const Obj*>(static_cast<const void*>(x->mem));
-    if (!probe("self-assign", [&] { ref = same; (void)F::readout(same, cfg); })) return;
-    { LibScope ls("self-copy-assign"); ref = same; }
+    if (!probe("self-assign", [&] { copy_assign(ref, same); (void)F::readout(same, cfg); })) return;
+    { LibScope ls("self-copy-assign"); copy_assign(ref, same); }
     expect_eq(*x, std::string(x->ro), "self-assign|state-changed", "a = a changed the read-out of a");
     cnt("self_assign");
     verify_all("self-copy-assign");
   }
   void op_chain(S* a, S* b, S* c) {   // a = b = c
     tr("chain#" + std::to_string(find_idx(a)) + "=#" + std::to_string(find_idx(b)) + "=#" + std::to_string(find_idx(c)));
-    if ((!a->valid || !b->valid) && !probe("moved-from|copy-assign-to-moved-from", [&] { a->o() = b->o() = c->co(); (void)F::readout(a->co(), cfg); })) return;
-    { LibScope ls("chain-assign"); a->o() = b->o() = c->co(); }
+    if ((!a->valid || !b->valid) && !probe("moved-from|copy-assign-to-moved-from", [&] { chain_assign(a->o(), b->o(), c->co()); (void)F::readout(a->co(), cfg); })) return;
+    { LibScope ls("chain-assign"); chain_assign(a->o(), b->o(), c->co()); }
     a->valid = b->valid = true;
     expect_eq(*b, c->ro, "chain-assign|middle-differs", "after a = b = c the read-out of b differs from c's");
     expect_eq(*a, c->ro, "chain-assign|left-differs", "after a = b = c the read-out of a differs from c's");
@@ -513,6 +522,7 @@ template<typename F> struct Program {
     else if (c < 38) { if (room) op_construct(); else destroy(pick_any(), "destroy"); }
     else if (c < 45) { if (room) op_copy_ctor(x); else destroy(pick_any(), "destroy"); }
     else if (c < 51) { if (room) op_move_ctor(x); else destroy(pick_any(), "destroy"); }
+    else if (!CA && ((c >= 51 && c < 58) || (c >= 64 && c < 72))) op_mutate(x);
     else if (c < 58) { S* t = pick_any(x); if (t) op_copy_assign(t, x); }
     else if (c < 64) { S* t = pick_any(x); if (t) op_move_assign(t, x); }
     else if (c < 68) op_self_assign(x);
